@@ -45,6 +45,40 @@ static void run_half(half_t *h) {
 }
 static void *thread_main(void *p) { run_half((half_t *)p); return NULL; }
 
+/* ---- a small helping thread pool ---- */
+#include <sched.h>
+typedef struct task { half_t *half; _Atomic int done; struct task *next; } task_t;
+_Atomic uint64_t seam_pool_joins, seam_pool_helped;
+int seam_pool_threads = 4;
+static pthread_mutex_t pool_lock = PTHREAD_MUTEX_INITIALIZER;
+static task_t *pool_head;
+static int pool_started;
+static void pool_push(task_t *t) { pthread_mutex_lock(&pool_lock); t->next = pool_head; pool_head = t; pthread_mutex_unlock(&pool_lock); }
+static task_t *pool_try_pop(void) {
+  pthread_mutex_lock(&pool_lock);
+  task_t *t = pool_head;
+  if (t) pool_head = t->next;
+  pthread_mutex_unlock(&pool_lock);
+  return t;
+}
+static void *pool_worker(void *arg) {
+  (void)arg;
+  for (;;) {
+    task_t *t = pool_try_pop();
+    if (t) { run_half(t->half); atomic_store(&t->done, 1); }
+    else usleep(50);
+  }
+  return NULL;
+}
+static void pool_start(void) {
+  pthread_mutex_lock(&pool_lock);
+  if (!pool_started) {
+    pool_started = 1;
+    for (int i = 0; i < seam_pool_threads; i++) { pthread_t t; if (pthread_create(&t, NULL, pool_worker, NULL) == 0) pthread_detach(t); }
+  }
+  pthread_mutex_unlock(&pool_lock);
+}
+
 static uint64_t mix(uint64_t x) {
   x ^= x >> 33; x *= 0xff51afd7ed558ccdULL; x ^= x >> 33; x *= 0xc4ceb9fe1a85ec53ULL; x ^= x >> 33;
   return x;
@@ -65,7 +99,7 @@ void blake3_compress_subtree_wide_join_tbb(
     return;
   }
   uint64_t r = mix(seam_seed ^ mix(l_chunk_counter * 0x9E3779B97F4A7C15ULL + l_input_len + r_input_len));
-  int order = seam_forced_order >= 0 ? seam_forced_order : (int)(r % 3);
+  int order = seam_forced_order >= 0 ? seam_forced_order : (int)(r % 4);
   if (((r >> 8) & 15) == 0) L.delay_us = (unsigned)((r >> 16) % 200);
   if (((r >> 12) & 15) == 0) R.delay_us = (unsigned)((r >> 24) % 200);
   if (order == 0) {
@@ -76,6 +110,21 @@ void blake3_compress_subtree_wide_join_tbb(
     atomic_fetch_add(&seam_right_first, 1);
     run_half(&R);
     run_half(&L);
+  } else if (order == 3) {
+    /* work-stealing style pool: the right half is queued, the left half runs inline, and a
+     * joiner that has to wait helps by running whatever task is queued - so one thread can run
+     * an unrelated task while one of its own frames is suspended in this join. */
+    pool_start();
+    atomic_fetch_add(&seam_pool_joins, 1);
+    task_t task = {&R, 0, NULL};
+    pool_push(&task);
+    run_half(&L);
+    while (!atomic_load(&task.done)) {
+      task_t *other = pool_try_pop();
+      if (other) { run_half(other->half); atomic_store(&other->done, 1); atomic_fetch_add(&seam_pool_helped, 1); }
+      else sched_yield();
+    }
+    if (ns(&L.begin) < ns(&R.end) && ns(&R.begin) < ns(&L.end)) atomic_fetch_add(&seam_overlaps, 1);
   } else {
     pthread_t t;
     if (pthread_create(&t, NULL, thread_main, &R) != 0) {
